@@ -415,6 +415,9 @@ func (x *Exec) unbox(st *State, t *Term, typ types.Type, name string) Value {
 }
 
 func (x *Exec) sliceContent(st *State, v VSlice) *Term {
+	if v.Arr != nil && v.Arr.Kind == "buffer" && v.Epoch != st.get(v.Arr).Epoch && x.fn != nil {
+		x.obligeProps(st, "safe", "stale-buffer-view(read)", False, "slice from buf.Bytes() read after the buffer was modified (the model of the read is only valid for a live view)", x.props)
+	}
 	c := st.get(v.Arr).Seq
 	if c == nil {
 		c = Empty
@@ -1492,7 +1495,7 @@ func (x *Exec) load(st *State, addr Value, in ssa.Instruction, t types.Type) Val
 	case VElemPtr:
 		c := st.get(a.Arr)
 		if a.Arr.Kind == "buffer" && a.Epoch != c.Epoch {
-			x.oblige(st, "safe", fmt.Sprintf("stale-buffer-view@b%d", in.Block().Index), False, "slice from buf.Bytes() used after the buffer was modified")
+			x.obligeProps(st, "safe", fmt.Sprintf("stale-buffer-view@b%d", in.Block().Index), False, "slice from buf.Bytes() used after the buffer was modified (the model of the read is only valid for a live view, so this is an obligation of every run)", x.props)
 		}
 		return x.unbox(st, At(c.Seq, a.Idx), t, a.Arr.Name+"[]")
 	case VGlobal:
@@ -1540,7 +1543,7 @@ func (x *Exec) store(st *State, addr Value, v Value, in ssa.Instruction) {
 	case VElemPtr:
 		c := st.mut(a.Arr)
 		if a.Arr.Kind == "buffer" && a.Epoch != c.Epoch {
-			x.oblige(st, "safe", fmt.Sprintf("stale-buffer-view@b%d", in.Block().Index), False, "slice from buf.Bytes() used after the buffer was modified")
+			x.obligeProps(st, "safe", fmt.Sprintf("stale-buffer-view@b%d", in.Block().Index), False, "slice from buf.Bytes() used after the buffer was modified (the model of the read is only valid for a live view, so this is an obligation of every run)", x.props)
 		}
 		if o, _ := dynOf(v); o != nil {
 			// a message part put into a list inside a loop must have been allocated in this very iteration:
